@@ -82,16 +82,21 @@ pub fn seq_cfg(focus: &'static str, seed: u64, index: u64, clean_only: bool) -> 
         _ => false,
     };
     let weight_mode = if rng.chance(1, 2) { WeightMode::Default } else { WeightMode::Custom };
+    // no-pressure budget: every key may demand up to cap (+24 for a TTL entry); C03 keeps the budget tight so that
+    // weight that is wrongly kept charged soon turns into (forbidden) eviction or rejection
+    let lenient_weights = focus == "C03";
+    let cap: i64 = if lenient_weights { rng.range(64, 195) as i64 } else { 195 };
     let max_weight = if pressure {
         match weight_mode { WeightMode::Default => rng.range(100, 400) as i64, WeightMode::Custom => rng.range(30, 120) as i64 }
-    } else { (n_keys as i64 + 1) * 220 };
+    } else if focus == "C03" && index % 3 == 0 { n_keys as i64 * (cap + 24) } else if lenient_weights { n_keys as i64 * (cap + 24) + 3 * 4 * 5 + rng.range(0, 30) as i64 } else { (n_keys as i64 + 1) * 220 };
     let tick = if focus == "C09" && rng.chance(1, 3) { Duration::from_secs(3600) } else { Duration::from_millis(1) };
     let noise_threads = match focus {
         "C03" => *rng.pick(&[0usize, 1, 2, 3]),
         "C10" => *rng.pick(&[0usize, 0, 2]),
         _ => 0,
     };
-    let noise_threads = if pressure { 0 } else { noise_threads };
+    let saturate = focus == "C03" && index % 3 == 0;
+    let noise_threads = if pressure || saturate { 0 } else { noise_threads };
     let hit_only = focus == "C16" && rng.chance(1, 3);
     let known = !clean_only && rng.chance(1, 4);
     let mut allow = Allow::default();
@@ -125,6 +130,9 @@ pub fn seq_cfg(focus: &'static str, seed: u64, index: u64, clean_only: bool) -> 
         n_keys, pressure, noise_threads, allow, sut,
         boundary_args: focus == "C17",
         hit_only,
+        cap,
+        lenient_weights,
+        saturate,
     }
 }
 
